@@ -131,6 +131,19 @@ class Interp:
         if isinstance(s, ast.Raise):
             name = s.exc.func.id if isinstance(s.exc, ast.Call) and isinstance(s.exc.func, ast.Name) else "Exception"
             c.exc_kind[name] = z3.Or(c.exc_kind.get(name, z3.BoolVal(False)), guard); c.exc = z3.Or(c.exc, guard); return
+        if isinstance(s, ast.Delete):
+            # `del lst[a:b]` with concrete bounds on a concrete-length list, only where the program point is reached unconditionally
+            # (a deletion under a symbolic guard would give the list a symbolic length)
+            if not z3.is_true(z3.simplify(guard)): raise Unsupported("del under a symbolic guard")
+            for t in s.targets:
+                if not (isinstance(t, ast.Subscript) and isinstance(t.slice, ast.Slice)): raise Unsupported("del of a non-slice")
+                lst = self.expr(fr, t.value, guard)
+                lo = self.expr(fr, t.slice.lower, guard) if t.slice.lower is not None else None
+                hi = self.expr(fr, t.slice.upper, guard) if t.slice.upper is not None else None
+                if not isinstance(lst, list) or any(x is not None and not isinstance(x, int) for x in (lo, hi)): raise Unsupported("del with symbolic bounds")
+                new = list(lst); del new[lo:hi]
+                self.assign(fr, t.value, new, guard)
+            return
         if isinstance(s, ast.Continue): fr.cont = z3.Or(fr.cont, guard); return
         if isinstance(s, ast.Pass): return
         raise Unsupported(type(s).__name__)
